@@ -136,16 +136,18 @@ func isDamage(op string) bool { return op == "flip" || op == "cut" || op == "jun
 func hash64(s string) uint64 { h := fnv.New64a(); h.Write([]byte(s)); return h.Sum64() }
 
 type runner struct {
-	res     *mbt.Result
-	scratch string
-	logStr  int // every logStr-th LOG is replayed (all transitions that damage it included)
-	exhPct  int // percentage of the replayed logs whose damages are realised exhaustively
-	k       int // variants per damage otherwise
-	seed    int64
-	nvar    int64
-	nobs    int64
-	nlock   int64
-	hugeOK  int32
+	res       *mbt.Result
+	scratch   string
+	logStr    int // every logStr-th LOG is replayed (all transitions that damage it included)
+	exhPct    int // percentage of the replayed logs whose damages are realised exhaustively
+	k         int // variants per damage otherwise
+	seed      int64
+	nvar      int64
+	nobs      int64
+	nlock     int64
+	hugeOK    int32
+	wpr       int   // WritesPerRecord of the specification the dump comes from (1)
+	nsplitpos int64 // in-write ticks placed at a group-write position the specification does not have
 	// set once the decoder has been seen allocating more than the limit: no larger length is
 	// tried after that (a 4 GiB buffer per worker gets the test process killed)
 	allocBroken int32
@@ -211,11 +213,12 @@ func (w *world) name(r readRes) string {
 }
 
 // readVerdict classifies a disagreement between a real read and the specified one.
-//   "P" the statement of C15 is falsified: a message sequence other than the specified one (a
-//       different message, a record behind the damage, a missing one), an error that is neither
-//       end-of-log nor a corruption error, an undamaged log that does not end with end-of-log;
-//   "L" only the way a DAMAGED log ends differs (io.EOF vs DataCorruptionError): the statement
-//       allows both, the specification pins one -- reported as a lock-step divergence.
+//
+//	"P" the statement of C15 is falsified: a message sequence other than the specified one (a
+//	    different message, a record behind the damage, a missing one), an error that is neither
+//	    end-of-log nor a corruption error, an undamaged log that does not end with end-of-log;
+//	"L" only the way a DAMAGED log ends differs (io.EOF vs DataCorruptionError): the statement
+//	    allows both, the specification pins one -- reported as a lock-step divergence.
 func readVerdict(got readRes, wantFrames [][]byte, wantEnd string, damaged bool) string {
 	if sameFrames(got.frames, wantFrames) && got.end == wantEnd {
 		return ""
@@ -459,16 +462,22 @@ func (c *lineCtx) lockstep(w *world, where, text string) {
 		var all []int
 		for _, f := range w.disk {
 			for _, s := range f {
-				all = append(all, s.id)
+				if s.id > 0 && (len(all) == 0 || all[len(all)-1] != s.id) { // the halves of a split frame are one record
+					all = append(all, s.id)
+				}
 			}
 		}
 		ra := w.readAll()
-		if !sameFrames(ra.frames, w.frames(all)) || ra.end != "eof" {
+		if !sameFrames(ra.frames, w.frames(all)) || (ra.end != "eof" && !(w.split() && ra.end == "dce")) {
 			c.rn.res.Mismatch("wal:read-group:none:lost-or-reordered",
 				fmt.Sprintf("group read returned %s, on disk are the records %v", w.name(ra), all), c.detail(nil))
 		}
 	}
-	c.rn.res.Mismatch("infra:lockstep:"+where, text, c.detail(nil))
+	hist := string(c.raw)
+	if i := strings.Index(hist, `,"o":`); i > 0 {
+		hist = hist[:i]
+	}
+	c.rn.res.Mismatch("infra:lockstep:"+where, text+" -- path "+hist+fmt.Sprintf(" (seed %d, dump line %d, index base %d)", c.rn.seed, c.n, baseOf(w)), c.detail(nil))
 }
 
 // syncProblem reports what world.sync found: a record that does not hold the written message is
@@ -484,6 +493,13 @@ func (c *lineCtx) syncProblem(w *world, op, p string) {
 		return
 	}
 	c.lockstep(w, op, p)
+}
+
+func baseOf(w *world) int {
+	if w == nil {
+		return 0
+	}
+	return w.base
 }
 
 // apply one non-damage action; returns false if the line cannot be followed further
@@ -520,6 +536,34 @@ func (c *lineCtx) step(w *world, a action) bool {
 		}
 		if kind == "huge" && atomic.CompareAndSwapInt32(&rn.hugeOK, 0, 1) {
 			c.encoderBoundary()
+		}
+		if p := w.sync(false); p != "" {
+			c.syncProblem(w, a.op, p)
+			return false
+		}
+	case "wt", "wst":
+		// a Write / WriteSync during which the group's ticker runs its head-size check, behind
+		// group write g of the message.  The specification (WritesPerRecord = 1) knows one
+		// position; if the real encoder hands the record over in several group writes, every
+		// real position is a place where the ticker can come: a seeded one is taken.
+		kind, h, g, cmp, tres := a.str(0), int64(a.num(1)), a.num(2), a.str(3), a.str(4)
+		pos := g
+		if w.gwPer > 0 && w.gwPer != rn.wpr {
+			pos = 1 + w.rng.Intn(w.gwPer)
+			atomic.AddInt64(&rn.nsplitpos, 1)
+		}
+		got := "never ran"
+		w.fireAt, w.fire = pos, func() { got = w.tick(cmp) }
+		wres := w.write(a.op == "wst", kind, h)
+		w.fire = nil
+		if wres != a.res {
+			rn.res.Mismatch("wal:write:"+kind+":"+a.res+"->"+endClass(wres),
+				fmt.Sprintf("%s of a %s message: real %s, specified %s", a.op, kind, wres, a.res), c.detail(nil))
+			return false
+		}
+		if got != tres {
+			c.lockstep(w, "tick-in-write:"+cmp, fmt.Sprintf("checkHeadSizeLimit behind group write %d of a message (head size %s limit): real %s, specified %s", pos, cmp, got, tres))
+			return false
 		}
 		if p := w.sync(false); p != "" {
 			c.syncProblem(w, a.op, p)
@@ -573,6 +617,12 @@ func (c *lineCtx) step(w *world, a action) bool {
 			return false
 		}
 	case "repair":
+		if !w.classConsistent() {
+			// bytes appended behind a cut record happen to equal the missing ones (or not): the
+			// record belongs to the other splice class, this path is another transition's
+			rn.res.Add("variants_in_other_splice_class", 1)
+			return false
+		}
 		f := a.num(0) - 1
 		w.close()
 		src := w.path(f) + ".CORRUPTED"
@@ -733,6 +783,13 @@ func (c *lineCtx) run() {
 				}
 				continue
 			}
+			if w.split() {
+				// a file starts inside a frame: the layout is not the specified one (reported, with the
+				// observers, by the transition in front of this damage); nothing to damage by the book
+				c.lockstep(w, "layout", fmt.Sprintf("on disk %s: a file starts inside a frame", layoutStr(w.disk, w.pend)))
+				ok = false
+				break
+			}
 			d := c.prepDamage(w, a, all && i == last)
 			if len(d.vars) == 0 { // class not realisable on this record (e.g. no zero byte at its end)
 				rn.res.Add("unrealisable_"+d.class, 1)
@@ -769,10 +826,20 @@ func (c *lineCtx) run() {
 			}
 			d.apply(w, (run*7+w.rng.Intn(len(d.vars)))%len(d.vars))
 		}
+		if ok && !w.classConsistent() {
+			rn.res.Add("variants_in_other_splice_class", 1)
+			ok = false
+		}
 		if ok {
-			if !c.compareLayout(w) {
+			same := c.compareLayout(w)
+			if !same {
 				c.lockstep(w, "layout", fmt.Sprintf("on disk %s, specified %s", layoutStr(w.disk, w.pend), layoutStr(c.exp.files, c.exp.buf)))
-			} else if c.compareAll(w, nil, -1) {
+			}
+			// A layout other than the specified one ends the line -- except when a FILE STARTS INSIDE
+			// A FRAME: then the question is the property's own (does every reader still return what
+			// was written?), and the observers are compared with what the specification says about
+			// the same records in whole frames.
+			if (same || w.split()) && c.compareAll(w, nil, -1) {
 				rn.res.Count(1)
 			}
 		}
@@ -872,7 +939,7 @@ func TestReplay(t *testing.T) {
 	}
 	scratch, _ = os.MkdirTemp(scratch, "walreplay")
 	defer os.RemoveAll(scratch)
-	rn := &runner{res: res, scratch: scratch, logStr: mbt.EnvInt("WAL_STRIDE", 1), exhPct: mbt.EnvInt("WAL_EXH", 10),
+	rn := &runner{res: res, scratch: scratch, wpr: mbt.EnvInt("WAL_WPR", 1), logStr: mbt.EnvInt("WAL_STRIDE", 1), exhPct: mbt.EnvInt("WAL_EXH", 10),
 		k: mbt.EnvInt("WAL_K", 4), seed: mbt.Seed()}
 	rn.probeAlloc()
 	var replayed int64
@@ -916,6 +983,7 @@ func TestReplay(t *testing.T) {
 	res.Behaviours = int(replayed)
 	res.Set("damage_variants_and_states_observed", rn.nvar)
 	res.Set("observer_calls", rn.nobs)
+	res.Set("in_write_ticks_at_unspecified_group_write", rn.nsplitpos)
 }
 
 // TestAlloc: "never an allocation beyond the message size limit", for the one reader the spy of
@@ -934,7 +1002,7 @@ func TestAlloc(t *testing.T) {
 	}
 	scratch, _ = os.MkdirTemp(scratch, "walalloc")
 	defer os.RemoveAll(scratch)
-	rn := &runner{res: res, scratch: scratch, k: 4, seed: mbt.Seed()}
+	rn := &runner{res: res, scratch: scratch, k: 4, wpr: 1, seed: mbt.Seed()}
 	limit := mbt.EnvInt("WAL_LIMIT", 150)
 	done := 0
 	var worst uint64
